@@ -8,6 +8,7 @@ import (
 	"io"
 	"os"
 	"runtime"
+	"strings"
 	"testing"
 	"testing/synctest"
 	"time"
@@ -158,18 +159,31 @@ func c08Drive(in c08Input, measureAlloc bool) (viol string, reached, accepted bo
 // watch runs f with a generous wall-clock watchdog: a case normally takes
 // microseconds; one that is still running after 60 s is reported as a hang.
 func watch(prop string, replay any, f func()) {
-	done := make(chan struct{})
-	go func() { defer close(done); f() }()
-	tm := time.NewTimer(60 * time.Second)
-	defer tm.Stop()
-	tick := time.NewTicker(50 * time.Millisecond)
-	defer tick.Stop()
 	fail := func(msg string) {
 		p := ev.WriteReplay(prop, replay, msg)
 		fmt.Printf("VERIF-VIOLATION property=%s replay=%s :: %s\n", prop, p, msg)
 		ev.FlushAll()
 		os.Exit(1)
 	}
+	done := make(chan struct{})
+	go func() {
+		defer close(done)
+		defer func() {
+			// inside a synctest bubble a call that can never return (every goroutine of the
+			// bubble blocked for good) surfaces as this panic of synctest.Test
+			if r := recover(); r != nil {
+				if strings.Contains(fmt.Sprint(r), "deadlock: all goroutines in bubble are blocked") {
+					fail("the call can never return: every goroutine involved is blocked for good (virtual-time deadlock)")
+				}
+				panic(r)
+			}
+		}()
+		f()
+	}()
+	tm := time.NewTimer(60 * time.Second)
+	defer tm.Stop()
+	tick := time.NewTicker(50 * time.Millisecond)
+	defer tick.Stop()
 	for {
 		select {
 		case <-done:
